@@ -506,6 +506,148 @@ def apply_along_axis(func1d, axis, arr, *args, **kwargs):
     raise HarnessError("apply_along_axis form")
 
 
+def zeros_like(a, dtype=None):
+    a = asarray(a).fixed()
+    return snp.zeros(a.o.shape, dtype if dtype is not None else a.d)
+
+
+def ones_like(a, dtype=None):
+    a = asarray(a).fixed()
+    return snp.ones(a.o.shape, dtype if dtype is not None else a.d)
+
+
+def empty_like(a, dtype=None):
+    a = asarray(a).fixed()
+    return snp.empty(a.o.shape, dtype if dtype is not None else a.d)
+
+
+def full_like(a, fill_value, dtype=None):
+    a = asarray(a).fixed()
+    return snp.full(a.o.shape, fill_value, dtype if dtype is not None else a.d)
+
+
+def flatnonzero(a):
+    return _nonzero(asarray(a).reshape(-1) if asarray(a).o.ndim != 1 else asarray(a))[0]
+
+
+def logical_not(a):
+    a = asarray(a)
+    return wrap_result(_f(lambda v: e_not(mkbool(bt(v)) if is_sym(v) else bool(v)), 1, 1)(a.o), bool, a.n)
+
+
+def _fn2(name):
+    def f(a, b):
+        return binop(asarray(a) if not isinstance(a, ndarray) and isinstance(a, (list, tuple)) else a, b, name) \
+            if isinstance(a, ndarray) or isinstance(a, (list, tuple)) else binop(a, asarray(b), name)
+    return f
+
+
+def logical_and(a, b):
+    a, b = asarray(a), asarray(b)
+    return binop(a.astype(bool) if a.d.kind != "b" else a, b.astype(bool) if b.d.kind != "b" else b, "and")
+
+
+def logical_or(a, b):
+    a, b = asarray(a), asarray(b)
+    return binop(a.astype(bool) if a.d.kind != "b" else a, b.astype(bool) if b.d.kind != "b" else b, "or")
+
+
+def maximum(a, b):
+    a, b = asarray(a), asarray(b)
+    sh = rnp.maximum(a.shadow(), b.shadow())
+    return wrap_result(_cast_arr(snp.EW2["max"](a.o, b.o), sh.dtype), sh.dtype, snp._symlen(a, b) if snp._symlen(a, b) != "mixed" else None)
+
+
+def minimum(a, b):
+    a, b = asarray(a), asarray(b)
+    sh = rnp.minimum(a.shadow(), b.shadow())
+    return wrap_result(_cast_arr(snp.EW2["min"](a.o, b.o), sh.dtype), sh.dtype, snp._symlen(a, b) if snp._symlen(a, b) != "mixed" else None)
+
+
+def hstack(seq):
+    seq = [asarray(x) for x in seq]
+    if builtins_all(x.o.ndim == 1 for x in seq):
+        return concatenate(seq)
+    return concatenate(seq, axis=1)
+
+
+def vstack(seq):
+    seq = [asarray(x).fixed() for x in seq]
+    seq = [x.reshape(1, -1) if x.o.ndim == 1 else x for x in seq]
+    return concatenate(seq, axis=0)
+
+
+def builtins_all(it_):
+    for x in it_:
+        if not x:
+            return False
+    return True
+
+
+def isin(element, test_elements, **kw):
+    a = asarray(element)
+    t = asarray(test_elements).fixed()
+    vals = list(t.o.reshape(-1))
+
+    def f(v):
+        r = False
+        for w in vals:
+            r = e_or(r, e_eq(v, w))
+        return r
+    return wrap_result(_f(f, 1, 1)(a.o), bool, a.n)
+
+
+in1d = isin
+
+
+def ndim(a):
+    return asarray(a).o.ndim
+
+
+def shape(a):
+    return asarray(a).shape
+
+
+def size(a, axis=None):
+    a = asarray(a)
+    return a.size if axis is None else a.shape[axis]
+
+
+def nanmax(a, axis=None):
+    a = asarray(a)
+    fl = _f(lambda v: e_ite(e_isnan(v), float("-inf"), v), 1, 1)(a.o)
+    return reduce_(ndarray(fl, a.d, a.n), "max", axis)
+
+
+def nanmin(a, axis=None):
+    a = asarray(a)
+    fl = _f(lambda v: e_ite(e_isnan(v), float("inf"), v), 1, 1)(a.o)
+    return reduce_(ndarray(fl, a.d, a.n), "min", axis)
+
+
+def mean(a, axis=None):
+    return asarray(a).mean(axis)
+
+
+def copyto(dst, src, where=True):
+    if where is not True:
+        raise HarnessError("copyto(where=)")
+    dst[...] = src
+
+
+def searchsorted(a, v, side="left"):
+    """Count of elements of the sorted array a that are < v (left) / <= v (right): no fork."""
+    a = asarray(a).fixed()
+    xs = asarray(v)
+
+    def one(x):
+        c = 0
+        for w in a.o:
+            c = e_add(c, e_ite(e_lt(w, x) if side == "left" else e_le(w, x), 1, 0))
+        return c
+    return wrap_result(_cast_arr(_f(one, 1, 1)(xs.o), rnp.dtype(rnp.int64)), rnp.int64, xs.n)
+
+
 class errstate:
     def __init__(self, **kw):
         pass
@@ -689,11 +831,15 @@ class NumpyShim:
         g = globals()
         for name in ("where nonzero isnan isinf isfinite isclose allclose array_equal sum nansum prod count_nonzero any all "
                      "amax amin sqrt absolute bincount argsort sort unique setxor1d cumsum cumprod flip append concatenate "
-                     "column_stack stack clip diff digitize repeat take apply_along_axis errstate quantile nanquantile cov "
+                     "column_stack stack hstack vstack clip diff digitize repeat take zeros_like ones_like empty_like full_like flatnonzero logical_not logical_and logical_or maximum minimum isin in1d ndim shape size nanmax nanmin mean copyto searchsorted apply_along_axis errstate quantile nanquantile cov "
                      "corrcoef generic integer").split():
             setattr(self, name, g[name])
         self.max = amax
         self.min = amin
+        for _n, _op in (("add", "add"), ("subtract", "sub"), ("multiply", "mul"), ("divide", "div"), ("true_divide", "div"),
+                        ("equal", "eq"), ("not_equal", "ne"), ("less", "lt"), ("less_equal", "le"), ("greater", "gt"),
+                        ("greater_equal", "ge"), ("floor_divide", "floordiv"), ("mod", "mod"), ("remainder", "mod"), ("power", "pow")):
+            setattr(self, _n, (lambda o: (lambda a, b: binop(asarray(a), b, o)))(_op))
         self.abs = absolute
         self.ndarray = ndarray_type
         for name in "asarray array zeros ones empty full arange".split():
